@@ -2,4 +2,4 @@
 From Coq Require Extraction.
 From Coq Require ExtrOcamlBasic.
 From RimeV Require Import MenuM.Gen MenuM.Menu MenuM.Spec.
-Extraction "c04_model.ml" run_case menu_of full_list nodup_texts.
+Extraction "c04_model.ml" run_case menu_of full_list nodup_texts dict_conv dict_a dict_b.
